@@ -36,7 +36,7 @@ From Knut Require Import Model.Str Model.Dec Model.Date Model.Account Model.Ledg
      Model.Table Model.Report Model.JPrinter Model.ImpCommonA
      Model.Imp.Swisscard2 Model.Imp.Viac Model.Imp.Cumulus Model.Imp.Postfinance Model.Imp.Swisscard
      Model.Imp.Supercard
-     Spec.ImpSpecA Proofs.DecValue Proofs.PairProofs Proofs.ImpProofsA Proofs.ImpRunB.
+     Spec.ImpSpecA Spec.ImpStmtA Proofs.DecValue Proofs.PairProofs Proofs.ImpProofsA Proofs.ImpRunB Proofs.ImpStdoutA.
 Import ListNotations.
 
 (* ---------------------------------------------------------------- sign conventions *)
@@ -228,6 +228,25 @@ Theorem C13_supercard_end_to_end : forall flag acct header rows,
     map t_desc ts = map build_desc (map sup_text (filter sup_is_booking rows)).
 Proof. exact supercard_run. Qed.
 Print Assumptions C13_supercard_end_to_end.
+
+(* ---------------------------------------------------------------- executable statement-level forms *)
+(* Spec/ImpStmtA.v defines, from the row readings of Spec/ImpSpecA.v (X_wf_row, X_fact, X_text), the
+   realisation of a row fact as one booking between the import account and Expenses:TBD and the shared
+   printer -- not from the importer model -- the journal text X_statement_output the property
+   prescribes for the records of a well-formed statement (None for any other list of records).
+   The command prints exactly that text.  ./check C13 evaluates the extracted X_statement_output
+   on the records of every generated well-formed statement and compares it with the standard
+   output of the binary (drv_c13a.ml, verdict `spec`).  Unlike `books`, the executable form says
+   which decimal is printed (the amount as written) and which way round a booking of zero is
+   written (charge_directive / change_directive). *)
+
+(* swisscard2: a header record, then well-formed rows; per row the charge Betrag booked from the
+   account to Expenses:TBD *)
+Theorem C13_swisscard2_stdout : forall flag acct recs,
+  account_flag flag = AAcc acct -> sc2_statement_wf recs = true ->
+  exists out, sc2_statement_output acct recs = Some out /\ run_swisscard2 flag (map CRec recs) = mkRun out SOk.
+Proof. exact swisscard2_stdout. Qed.
+Print Assumptions C13_swisscard2_stdout.
 
 (* swisscard: the importer's one-pass replacer = remove every "CHF", then every "'" *)
 Theorem C13_swisscard_amount_text : forall s, sc_clean s = sc_amount_text s.
